@@ -19,6 +19,7 @@ def run(ctx, R, tier):
     c17.mapping(F, R)
     speed_units(F, R)
     speed_conversions(F, R)
+    add_negative_first(F, R)
     # 'clock-time arithmetic keeps the fraction in [0, 1)': so does the fraction a handle reads (published at full width)
     from .c05 import published_width
     published_width(F, R, rule='B.C19.published', fn_filter=lambda q: q.startswith('clock::'), floor=4)
@@ -288,6 +289,26 @@ def cmp_(F, R):
             why = 'a path does not compare the clocks'
     R.check(ok and seen == {'different-clock', 'equal-ticks', 'ticks'}, 'B.C19.cmp', 'partial_cmp', why or 'branches %s' % sorted(seen),
             detail={'branches': sorted(seen)}, where=b.file)
+
+
+def add_negative_first(F, R, rule='B.C19.add'):
+    """'Adding and then subtracting an amount returns the original time': `ClockTime + f64` hands a negative amount to the
+    subtraction before it does anything else with it - the sign test lies on every path to a return (the unsigned
+    arithmetic below it, `as u64` included, is only right for amounts that are not negative)."""
+    n = 0
+    for b in F.bodies:
+        if b.krate != 'kira' or b.path != '<clock::time::ClockTime as std::ops::Add<f64>>::add':
+            continue
+        n += 1
+        sg = [x for x, t in b.calls() if (callee_path(t) or '').endswith('::is_sign_negative') or (callee_path(t) or '').endswith('f64>::is_sign_positive')]
+        lt = [x for x, _, s in b.stmts() if s['k'] == 'assign' and s['rv']['k'] == 'bin' and s['rv']['op'] in ('Lt', 'Le', 'Gt', 'Ge')
+              and 'ticks' in (describe(b, s['rv']['a'], at=x) + describe(b, s['rv']['b'], at=x)) and '0.0' in (describe(b, s['rv']['a'], at=x) + describe(b, s['rv']['b'], at=x))]
+        tests = sg + lt
+        ok = bool(tests) and all(any(b.dominates(tst, r) for tst in tests) for r in b.return_blocks())
+        sub = [x for x, t in b.calls() if 'std::ops::Sub<f64>' in (callee_path(t) or '')]
+        R.check(ok and bool(sub), rule, 'negative-first', 'ClockTime + f64 can return without having tested the sign of the amount (or never hands a negative amount to the subtraction)',
+                detail='if ticks.is_sign_negative() { return self.sub(-ticks) } before anything else', where=b.file)
+    R.floor(rule, n, 1)
 
 
 def speed_conversions(F, R, rule='B.C19.speed-conv'):
